@@ -371,7 +371,10 @@ func (d *TCPDialer) tryDial(
 	conn, err := dialer.DialContext(ctx, network, addr)
 	vhook("td.dial.end", d, err, 0, 0)
 	if err != nil {
-		if ctx.Err() == context.DeadlineExceeded {
+		// The deadline is also enforced by the netpoller, which can report the
+		// timeout ("i/o timeout") slightly before ctx.Err() turns non-nil.
+		var netErr net.Error
+		if ctx.Err() == context.DeadlineExceeded || (errors.As(err, &netErr) && netErr.Timeout()) {
 			return nil, wrapDialWithUpstream(ErrDialTimeout, addr)
 		}
 		return nil, wrapDialWithUpstream(err, addr)
